@@ -1,4 +1,5 @@
 mod absmodel;
+mod bvhcheck;
 mod session;
 mod util;
 
@@ -25,6 +26,7 @@ fn worker(kind: &str) {
         };
         let ans = match kind {
             "session" => session::worker_handle(&req),
+            "bvh" => bvhcheck::worker_handle(&req),
             _ => serde_json::json!({"error": "unknown worker kind"}),
         };
         util::answer(&ans);
@@ -41,6 +43,7 @@ fn main() {
     match argv[1].as_str() {
         "worker" => worker(argv.get(2).map(|s| s.as_str()).unwrap_or("")),
         "session" => session::main_session(&args),
+        "bvh" => bvhcheck::main_bvh(&args),
         other => {
             eprintln!("unknown command {}", other);
             std::process::exit(2);
